@@ -84,6 +84,8 @@ def _setup(case):
         oc = state['outcomes'][tok]
         spec = [m for m in case['methods'] if m['name'] == name][0]
         k = oc['kind']
+        if k == 'unencodable' and spec['out'] in ('', 'b', 'h'):
+            k = 'value'      # any object is a fine BOOLEAN, and a method without return values has nothing to encode
         if k in ('value', 'deferred'):
             vals = S.to_py_list(spec['out'], oc['trees'], oc.get('pres', [])) if spec['out'] else []
             ret = None if not vals else (vals[0] if len(vals) == 1 else (tuple(vals) if oc.get('as_tuple', True) else list(vals)))
@@ -94,7 +96,7 @@ def _setup(case):
             return ret
         if k == 'unencodable':
             # the method runs fine but hands back something that cannot travel under its declared return signature
-            return object() if spec['out'] else None
+            return object()
         if k == 'deferred-fail':
             d = defer.Deferred()
             state['deferreds'][tok] = (d, _exc(oc['exc'])(TEXTS[oc['text']]))
@@ -262,7 +264,7 @@ def _execute(case, choices=None):
                 if r is not None:
                     out.append(Disc('result.no-reply-call', 'call %d made with expectReply=False completed with %r' % (tok, r)))
                 continue
-            if oc['kind'] == 'unencodable' and spec['out']:
+            if oc['kind'] == 'unencodable' and spec['out'] not in ('', 'b', 'h'):
                 # the call still concludes - with an error describing the failure on the exporting side
                 if not (isinstance(r, Failure) and isinstance(r.value, E.RemoteError)):
                     out.append(Disc('result.unencodable-return-not-reported', 'call %d: caller got %r' % (tok, r)))
